@@ -304,8 +304,8 @@ def run_containers(R, P, what_list, tier, seed, budget, only_memory=False):
                 if lo <= cap <= hi:
                     rc, out = vc.run([exe, "replay", what, f], timeout=60)
                     nreg += 1
-                    if rc == 1:
-                        R.violation(f, "regression sequence reproduces (%s header): %s" % (variant, out.strip()[-400:]))
+                    if rc == 1 or rc == 97:
+                        R.violation(f, "regression sequence reproduces (%s header): %s" % (variant, "the sequence does not terminate (watchdog, 10 s)" if rc == 97 else out.strip()[-400:]))
     R.coverage["regression_cases_replayed"] = R.coverage.get("regression_cases_replayed", 0) + nreg
     for variant in ("shipped", "dev"):
         plans = [("gcc", FULL_SHARDS, budget)]
@@ -358,6 +358,19 @@ def run_containers(R, P, what_list, tier, seed, budget, only_memory=False):
                             R.violation(st["replay"], "%s  [%s, %s header, %s build, capacities %d..%d; shrunk by rapidcheck, reproduced 3/3; replay with: %s replay %s %s]" % (st.get("message", ""), what, variant, tool, lo, hi, exe, what, st["replay"]))
                         else:
                             R.inconclusive.append("container failure did not reproduce: " + st["replay"])
+                elif rc == 97:
+                    # per-sequence watchdog of the harness: the operation sequence did not return within 20 s (normal: microseconds)
+                    hp = os.path.join(od, "%s-%s-%s-%d-%d-s%d-hang.seq" % (what, variant, tool, lo, hi, seed))
+                    hangs = 0
+                    if os.path.exists(hp):
+                        for _ in range(3):
+                            rc2, o2 = vc.run([exe, "replay", what, hp], env=env, timeout=60)
+                            if rc2 == 97:
+                                hangs += 1
+                    if hangs == 3:
+                        R.violation(hp, "container operation sequence does not terminate: the harness watchdog fired after 20 s and the saved sequence hangs again 3/3 in the stand-alone replayer (10 s each; a sequence normally takes microseconds)  [%s, %s header, %s build, capacities %d..%d; replay with: %s replay %s %s]" % (what, variant, tool, lo, hi, exe, what, hp))
+                    else:
+                        R.inconclusive.append("container watchdog fired but the saved sequence did not hang again (%d/3): %s" % (hangs, hp))
                 elif rc != 0:
                     p = os.path.join(od, "crash-%s-%s-%s-%d.log" % (variant, tool, what, lo))
                     open(p, "w").write(out[-6000:])
